@@ -273,6 +273,15 @@ class Recognizer(IRecognizer):
                     # try exact match first, dashes if that doesn't match
                     for name in [attr_name, attr_name.replace('_', '-')]:
                         if cnode.has_attribute(name):
+                            key_nodes = [
+                                    kn for kn, _ in node.value
+                                    if kn.value == name]
+                            if len(key_nodes) > 1:
+                                message = (
+                                        '{}\nFound a duplicate key "{}"'
+                                        ).format(
+                                                key_nodes[1].start_mark, name)
+                                return set(), (message, [])
                             subnode = cnode.get_attribute(name)
                             recognized_types, result = self.recognize(
                                 subnode.yaml_node, type_)
